@@ -56,6 +56,14 @@ type exitV struct{ Amt, Meta, Leaf int }
 type impV struct {
 	Kind, Rollup, LeafIdx int
 	Inner                 exitV
+	Leaf                  uint32 // the leaf index itself when LeafIdx < 0 (large certificates: many distinct global indices)
+}
+
+func (m impV) leaf() uint32 {
+	if m.LeafIdx < 0 {
+		return m.Leaf
+	}
+	return giBoundary[m.LeafIdx]
 }
 
 type spec struct {
@@ -70,14 +78,17 @@ var giBoundary = []uint32{0, 1, 255, 256, 0xFFFFFFFF}
 func (e exitV) String() string { return fmt.Sprintf("a%dm%dl%d", e.Amt, e.Meta, e.Leaf) }
 func (m impV) String() string {
 	if m.Kind == 0 {
-		return fmt.Sprintf("M(%d;%s)", giBoundary[m.LeafIdx], m.Inner)
+		return fmt.Sprintf("M(%d;%s)", m.leaf(), m.Inner)
 	}
 	if m.Kind == 2 {
-		return fmt.Sprintf("M+rollupbits(%d,%d;%s)", giBoundary[m.Rollup], giBoundary[m.LeafIdx], m.Inner)
+		return fmt.Sprintf("M+rollupbits(%d,%d;%s)", giBoundary[m.Rollup], m.leaf(), m.Inner)
 	}
-	return fmt.Sprintf("R(%d,%d;%s)", giBoundary[m.Rollup], giBoundary[m.LeafIdx], m.Inner)
+	return fmt.Sprintf("R(%d,%d;%s)", giBoundary[m.Rollup], m.leaf(), m.Inner)
 }
 func (s spec) String() string {
+	if len(s.Exits) > 8 || len(s.Imps) > 8 {
+		return fmt.Sprintf("%s large certificate: %d exits, %d imported exits", schemeNames[s.Scheme], len(s.Exits), len(s.Imps))
+	}
 	return fmt.Sprintf("%s exits=%v imported=%v", schemeNames[s.Scheme], s.Exits, s.Imps)
 }
 
@@ -354,12 +365,12 @@ var worldSeq atomic.Int64
 
 func globalIndexBig(m impV) *big.Int {
 	if m.Kind == 0 {
-		return globalIndex(true, 0, giBoundary[m.LeafIdx])
+		return globalIndex(true, 0, m.leaf())
 	}
 	if m.Kind == 2 {
-		return globalIndex(true, giBoundary[m.Rollup], giBoundary[m.LeafIdx]) // as emitted on chain: unused rollup bits set
+		return globalIndex(true, giBoundary[m.Rollup], m.leaf()) // as emitted on chain: unused rollup bits set
 	}
-	return globalIndex(false, giBoundary[m.Rollup], giBoundary[m.LeafIdx])
+	return globalIndex(false, giBoundary[m.Rollup], m.leaf())
 }
 
 // newWorld builds fresh objects. withPrev: the storage already holds a settled certificate at
